@@ -20,6 +20,8 @@ package main
 //   reader ops  (0 n) Next (1 n) Peek (2 n) Skip (3 k) ReadBinary (4) ReadLen (5) Release (6 t sizes) thrift.SkipDecoder.Next(t)
 //   writer ops  (0 n) Malloc (1 bytes capextra) WriteBinary (2 k off bytes) store into region k (3) Flush (4) WrittenLen
 //   skip ops    (0 t sizes) Next(t) (1 n) SkipN (2 data final with chunks) Reset(new source)
+//               (3) Release() — back to the package's sync.Pool, the object keeps its buffer
+//               (4 data final with chunks) NewReaderSkipDecoder(new source) — out (3) iff the pool hands the released object out again
 // output  ((out state allocs cots pcots after live nids)* callerok)
 //   state  reader: (cur ri ro (pend*))  writer: (cur (pend*) nocache errset target)  skip: (cur n)   cur/pend/target = () | (id off len cap)
 //   allocs ids of the blocks that newly appeared in the object's hands during the op, in order
@@ -85,6 +87,7 @@ type c09Sess struct {
 	cotRuns  int
 	inCot    bool
 	closed   bool
+	classes  int // co-tenant size classes 2^0 .. 2^(classes-1); raised for histories with big values
 }
 
 func (s *c09Sess) lookup(p uintptr) (int, int, bool) {
@@ -137,7 +140,7 @@ func (s *c09Sess) cotRun() V {
 	s.cotRuns++
 	var got VL
 	var held [][]byte
-	for cl := 0; cl < c09Classes; cl++ {
+	for cl := 0; cl < s.classes; cl++ {
 		for k := 0; k < c09PerCls; k++ {
 			b := mcache.Malloc(1 << cl)
 			fill := byte(0xC7 + s.cotRuns)
@@ -231,13 +234,15 @@ func (s *c09Sess) endOp(out V, state func() V, liveok func() bool) V {
 
 var c09Once sync.Once
 
-func c09NewSess() *c09Sess {
+func c09NewSess() *c09Sess { return c09NewSessN(c09Classes) }
+
+func c09NewSessN(classes int) *c09Sess {
 	c09Once.Do(func() {
 		runtime.GOMAXPROCS(1) // one P: sync.Pool hands a freed block to the next Get of its class
 		debug.SetGCPercent(-1)
 	})
 	runtime.GC() // between cases only: within a case no address is ever reused
-	s := &c09Sess{prevHeld: map[int]bool{}}
+	s := &c09Sess{prevHeld: map[int]bool{}, classes: classes}
 	s.inCot = true
 	s.cotRun() // warm-up: the pools hold dirty blocks
 	s.inCot = false
@@ -689,8 +694,25 @@ func c09RunWriter(kind int, p []V, ops []V) V {
 }
 
 // ---------------- ReaderSkipDecoder ----------------
+// the co-tenant must reach the size class of the biggest buffer the history can make the decoder
+// allocate: pow2ceil(stream length) is an upper bound
+func c09SkipClasses(p []V, ops []V) int {
+	mx := len(AsBytes(p[0]))
+	for _, o := range ops {
+		a := AsList(o)
+		if k := AsInt(a[0]); (k == 2 || k == 4) && len(AsBytes(a[1])) > mx {
+			mx = len(AsBytes(a[1]))
+		}
+	}
+	cls := c09Classes
+	for cls < 24 && 1<<(cls-1) < 2*mx {
+		cls++
+	}
+	return cls
+}
+
 func c09RunSkip(p []V, ops []V) V {
-	s := c09NewSess()
+	s := c09NewSessN(c09SkipClasses(p, ops))
 	src := c09MkSrc(p, s.callback)
 	d := &thrift.ReaderSkipDecoder{}
 	d.Reset(src)
@@ -739,6 +761,20 @@ func c09RunSkip(p []V, ops []V) V {
 			src = c09MkSrc(a[1:], s.callback)
 			d.Reset(src)
 			out = Ls(I(3))
+		case 3:
+			live = nil
+			d.Release() // d stays observable through the hook: what a pooled decoder stands on
+			out = Ls(I(3))
+		case 4:
+			live = nil
+			src = c09MkSrc(a[1:], s.callback)
+			d2 := thrift.NewReaderSkipDecoder(src)
+			if d2 == d {
+				out = Ls(I(3))
+			} else { // single P, no GC inside a case: the pool's private slot returns the object just Put
+				out = Ls(I(7))
+				d = d2
+			}
 		default:
 			panic("c09: bad skip op")
 		}
@@ -842,8 +878,24 @@ func c09Chunks(g *Gen, n int) (V, int) {
 	}
 }
 
-func genC09(g *Gen) {
+func genC09(g *Gen) { genC09With(g, true) }
+
+// withBig = false: only the small histories (the library of C14's modelled cycles)
+func genC09With(g *Gen, withBig bool) {
 	B := c09B
+	// the big-value histories are expensive for the model: spread them over the case list (the
+	// driver shards the list into contiguous chunks, one per core)
+	var bigs []c09Case
+	if withBig {
+		bigs = genC09Big(g)
+	}
+	nbig := 0
+	flushBig := func(upto int) {
+		for nbig < upto && nbig < len(bigs) {
+			g.Add(bigs[nbig].cls, bigs[nbig].in)
+			nbig++
+		}
+	}
 	op := func(k, n int) V { return Ls(I(k), I(n)) }
 	rel, rl := Ls(I(5)), Ls(I(4))
 	// ---- directed reader histories: slices retained across 0..many growths, pool reuse after Release ----
@@ -865,6 +917,9 @@ func genC09(g *Gen) {
 	alpha := []int{0, 1, 2, 3, 7, 100, 1000, B - 1, B, B + 1, 2 * B, 2*B + 1, 10000, 20000}
 	small := []int{0, 1, 2, 3, 5, 8, 13, 40}
 	for i := 0; i < g.Scale(600, 3000); i++ {
+		if i%60 == 30 {
+			flushBig(nbig + 1)
+		}
 		bytesKind := i%3 == 0
 		tiny := i%4 == 1
 		var dl int
@@ -964,6 +1019,9 @@ func genC09(g *Gen) {
 	g.Add("bw/dir", Ls(I(3), Ls(I(1), PatV(1, 0), PatV(2, 0), PatV(3, 0)), Ls(fl, wl)))
 	wsz := []int{0, 1, 3, 100, 1000, B - 1, B, B + 1, 10000, 30000}
 	for i := 0; i < g.Scale(450, 2500); i++ {
+		if i%60 == 30 {
+			flushBig(nbig + 1)
+		}
 		tiny := (i/2)%2 == 1
 		kind := 2 + i%2
 		var params V
@@ -1050,6 +1108,9 @@ func genC09(g *Gen) {
 	}
 	// ---- ReaderSkipDecoder ----
 	for i := 0; i < g.Scale(350, 2000); i++ {
+		if i%60 == 30 {
+			flushBig(nbig + 1)
+		}
 		tiny := i%3 == 1
 		mk := func() (V, VL) {
 			var parts VL = VL{I(1)}
@@ -1084,10 +1145,17 @@ func genC09(g *Gen) {
 			return Ls(parts, I(20+g.R.Intn(2)), I(with), ch), ops
 		}
 		p, ops := mk()
-		for k := g.R.Intn(3); k > 0; k-- { // Release + New on the same pooled object: p.b survives
+		for k := g.R.Intn(3); k > 0; k-- { // Reset, or Release + New through the package's pool: p.b survives
 			p2, ops2 := mk()
-			ops = append(ops, append(VL{I(2)}, AsList(p2)...))
+			if g.R.Intn(2) == 0 {
+				ops = append(ops, append(VL{I(2)}, AsList(p2)...))
+			} else {
+				ops = append(ops, Ls(I(3)), append(VL{I(4)}, AsList(p2)...))
+			}
 			ops = append(ops, ops2...)
+		}
+		if g.R.Intn(6) == 0 {
+			ops = append(ops, Ls(I(3))) // the history ends with the decoder in the pool
 		}
 		cls := "k/rand"
 		if tiny {
@@ -1095,4 +1163,109 @@ func genC09(g *Gen) {
 		}
 		g.Add(cls, Ls(I(4), p, ops))
 	}
+	flushBig(len(bigs))
+}
+
+// one BIG thrift value (its private buffer leaves the small size classes): n = payload size
+func c09GenBigVal(g *Gen, n int) c09Val {
+	form := g.R.Intn(4)
+	if n >= 1<<19 { // after a big part every further SkipN re-allocates and copies the whole value: keep the MiB-sized ones flat
+		form = 3 * g.R.Intn(2)
+	}
+	switch form {
+	case 0: // LIST<I64>
+		k := n / 8
+		return c09Val{15, VL{Bs(append([]byte{10}, c09Be32(k)...)), PatV(g.R.Intn(200), 8*k)}, []int{5, 8 * k}, 5 + 8*k}
+	case 1: // STRUCT { 1: string, 2: i32 }
+		return c09Val{12, VL{Bs([]byte{11, 0, 1}), Bs(c09Be32(n)), PatV(g.R.Intn(200), n), Bs([]byte{8, 0, 2}), PatV(3, 4), Bs([]byte{0})},
+			[]int{1, 2, 4, n, 1, 2, 4, 1}, 3 + 4 + n + 3 + 4 + 1}
+	case 2: // LIST<STRING> of a small and a big one: the buffer grows in the middle of the value
+		l0 := 1 + g.R.Intn(5000)
+		return c09Val{15, VL{Bs(append([]byte{11}, c09Be32(2)...)), Bs(c09Be32(l0)), PatV(g.R.Intn(200), l0), Bs(c09Be32(n)), PatV(g.R.Intn(200), n)},
+			[]int{5, 4, l0, 4, n}, 5 + 4 + l0 + 4 + n}
+	default: // STRING
+		return c09Val{11, VL{Bs(c09Be32(n)), PatV(g.R.Intn(200), n)}, []int{4, n}, 4 + n}
+	}
+}
+
+// ReaderSkipDecoder with values beyond 64 KiB (private buffer >= 128 KiB, up to 2 MiB): skip,
+// Release to the package pool, take a decoder again, skip small and big values — the co-tenant
+// (whose size classes are extended to the biggest buffer) acts in between and at every pool
+// operation.  Also the directed Peek-then-grow reader histories.
+type c09Case struct {
+	cls string
+	in  V
+}
+
+func genC09Big(g *Gen) (out []c09Case) {
+	add := func(cls string, in V) { out = append(out, c09Case{cls, in}) }
+	op := func(k, n int) V { return Ls(I(k), I(n)) }
+	rel := Ls(I(5))
+	// ---- Peek with nothing consumed (ReadLen = 0), held across growth; right after New and right after Release ----
+	for _, n1 := range []int{1, 100, c09B} {
+		for _, n2 := range []int{c09B + 1, 3 * c09B, 40000} {
+			ch := []V{Ls(), Ls(Ls(I(1000), I(60))), Ls(I(c09B), Ls(I(3000), I(30)))}[g.R.Intn(3)]
+			add("r/peekgrow", Ls(I(0), Ls(PatV(n1+n2, 60000), I(20), I(g.R.Intn(2)), ch),
+				Ls(op(1, n1), op(1, n2), op(1, n1), op(0, n2), rel, op(1, n1), op(1, n2+c09B), Ls(I(4)), op(0, 10), rel, rel, op(1, 2*n2), op(1, n1), rel)))
+		}
+	}
+	add("r/peekgrow", Ls(I(0), Ls(PatV(77, 300000), I(20), I(0), Ls()),
+		Ls(op(1, 10), op(1, 5000), op(1, 10000), op(1, 70000), op(1, 140000), op(0, 1), rel, op(1, 100), op(1, 280000), rel)))
+	// ---- big values ----
+	// payload sizes of the successive decoder users (0: a small value)
+	sizesQuick := [][]int{
+		{65536 + 1, 0}, {70000, 0, 70000}, {66000, 140000, 0}, {140000, 70000, 0, 300000}, {200000, 0, 0}, {0, 131073, 0, 66000},
+		{300000, 0}, {70000, 70001}, {1000000, 0}, {0, 1100000, 70000},
+	}
+	n := len(sizesQuick)
+	if g.Thor {
+		n *= 6
+	}
+	for i := 0; i < n; i++ {
+		sz := sizesQuick[i%len(sizesQuick)]
+		var p V
+		var ops VL
+		for u, n0 := range sz {
+			var parts VL = VL{I(1)}
+			var uops VL
+			total := 0
+			addv := func(v c09Val) {
+				parts = append(parts, v.enc...)
+				total += v.n
+				uops = append(uops, Ls(I(0), I(v.t), c09Sizes(v.sizes)))
+			}
+			if g.R.Intn(2) == 0 {
+				addv(c09GenVal(g, false))
+			}
+			if n0 == 0 {
+				addv(c09GenVal(g, true))
+			} else {
+				addv(c09GenBigVal(g, n0+g.R.Intn(3)))
+			}
+			if g.R.Intn(2) == 0 {
+				addv(c09GenVal(g, false))
+			}
+			var ch V = Ls()
+			switch g.R.Intn(4) {
+			case 0:
+				ch = Ls(I(1), I(0), Ls(I(65536), I(total/65536+2)))
+			case 1:
+				ch = Ls(I(3), Ls(I(total/3+1), I(5)))
+			}
+			srcp := Ls(parts, I(20+g.R.Intn(2)), I(g.R.Intn(2)), ch)
+			switch {
+			case u == 0:
+				p = srcp
+			case g.R.Intn(4) == 0:
+				ops = append(ops, append(VL{I(2)}, AsList(srcp)...))
+			default:
+				ops = append(ops, Ls(I(3)), append(VL{I(4)}, AsList(srcp)...))
+			}
+			ops = append(ops, uops...)
+		}
+		ops = append(ops, Ls(I(3)))
+		add("k/big", Ls(I(4), p, ops))
+	}
+	g.R.Shuffle(len(out), func(i, j int) { out[i], out[j] = out[j], out[i] })
+	return out
 }
